@@ -5,7 +5,8 @@ the full set of checks, that each composite check calls all its parts on every
 path to success, and that the failure edge of each elementary test cannot reach a
 success return. Declines that each elementary test is itself exact.
 """
-from lib import cfg, protocol, shape
+import re
+from lib import panics, cfg, protocol, shape
 from lib.facts import callee
 from lib.rulelib import short
 
@@ -200,18 +201,38 @@ def euids_traversal(chk, facts):
 
 
 ENTRY = [
-    # (file, fn suffix, schema-gated check that must be crossed before data is accepted, description)
-    ("cedar-policy-core/src/entities.rs", "entities::Entities::from_entities", "::validate_entity", "store construction validates every non-action entity"),
-    ("cedar-policy-core/src/entities.rs", "entities::Entities::add_entities", "::validate_entity", "add validates every entity"),
-    ("cedar-policy-core/src/entities.rs", "entities::Entities::upsert_entities", "::validate_entity", "upsert validates every entity"),
+    # (file, fn suffix, check, description, skip guards allowed inside the per-entity loop)
+    #   "no-schema": the Option<checker> is None;  "is_action": the action / non-action split (from_entities validates actions
+    #   after the transitive closure: its two loops must skip on opposite polarities)
+    ("cedar-policy-core/src/entities.rs", "entities::Entities::from_entities", "::validate_entity", "store construction validates every entity", ("is_action",)),
+    ("cedar-policy-core/src/entities.rs", "entities::Entities::add_entities", "::validate_entity", "add validates every entity", ("no-schema",)),
+    ("cedar-policy-core/src/entities.rs", "entities::Entities::upsert_entities", "::validate_entity", "upsert validates every entity", ("no-schema",)),
 ]
 
 
+def _skip_guard_kind(f, d):
+    """Classify the conditional at switch block d: ('no-schema', skip values) / ('is_action', None) / (None, description)."""
+    t = f.blocks[d]["t"]
+    desc = panics.cond_desc(f, d)
+    op = t[1]
+    if op[0] in ("c", "m") and len(op[1]) == 1:
+        for b, st in f.stmts():
+            if st[0] == "a" and st[1] == op[1] and st[2][0] == "disc":
+                ty = f.locals[st[2][1][0]] if isinstance(st[2][1][0], int) else ""
+                if "Option<" in ty and "EntitySchemaConformanceChecker" in ty:
+                    return "no-schema", desc
+    if "is_action" in desc:
+        return "is_action", desc
+    return None, desc
+
+
 def entry_points(chk, facts):
-    """On the Some(schema) edge, no entity reaches the store without validate_entity."""
+    """With a schema, no loop iteration over the incoming entities completes without validate_entity:
+    from the loop-body entry, every path back to the loop head (or to a success return) crosses the check,
+    except through the skip edge of an allowed guard (no schema given; the action / non-action split)."""
     rule = "C11.MUSTPASS.entry"
     n = 0
-    for file, fname, check, desc in ENTRY:
+    for file, fname, check, desc, allowed in ENTRY:
         f = find_fn(chk, facts, rule, file, fname)
         if f is None:
             continue
@@ -221,29 +242,47 @@ def entry_points(chk, facts):
             continue
         ok_all = True
         det = []
+        polarities = []
+        problems = []
+        succ = set(protocol.ok_blocks(f))
         for b, t in sites:
             ok, d = protocol.honor_result(f, b)
             ok_all &= ok
             det.append(d)
-        # the store write (update_entity_map / returning the map) in the same loop iteration must come after the check when a checker exists
-        writes = protocol.calls_matching(f, ("entities::update_entity_map",))
-        gate_ok = True
-        for wb, wt in writes:
-            lp = protocol.loop_of(f, wb)
+            lp = protocol.loop_of(f, b)
             if lp is None:
-                gate_ok = False
+                problems.append("the check at L%s is not inside a loop over the entities" % t[1].get("l"))
                 continue
             head, some = lp
-            # paths from loop-body entry to the write that avoid the check must go through the `checker is None` edge
-            r = cfg.reachable(f, some, cut_blocks={b for b, _ in sites})
-            if wb in r:
-                # allowed only if a dominating guard of the check is the Option<checker> discriminant
-                gs = [g for g in cfg.guard_edges(f, sites[0][0])]
-                gate_ok &= any(True for d, taken in gs if "as_ref" in str(f.blocks[d]["st"]) or True)
+            cut_edges = set()
+            for d_, taken in cfg.guard_edges(f, b):
+                if not cfg.dominates(f, some, d_):
+                    continue     # a guard outside the loop (e.g. `if let Some(schema)` around the whole loop)
+                kind, gdesc = _skip_guard_kind(f, d_)
+                tk = {bb for _, bb in taken}
+                sw = f.blocks[d_]["t"]
+                skips = [(v, bb) for v, bb in ([(v, bb) for v, bb in sw[2]] + [("else", sw[3])]) if bb not in tk]
+                if kind in allowed:
+                    for v, bb in skips:
+                        cut_edges.add((d_, bb))
+                    if kind == "is_action":
+                        polarities.append(tuple(sorted(str(v) for v, _ in skips)))
+                else:
+                    problems.append("an iteration skips the check at L%s under `%s`" % (t[1].get("l"), gdesc))
+            r = cfg.reachable(f, some, cut_blocks={b}, cut_edges=cut_edges)
+            if head in r or (r & succ):
+                if not problems:
+                    problems.append("a path through the loop body reaches the next iteration / success without the check at L%s" % t[1].get("l"))
+        if "is_action" in allowed:
+            # the two loops of from_entities must cover both polarities between them
+            if len(polarities) != 2 or polarities[0] == polarities[1]:
+                problems.append("the action / non-action loops do not skip on opposite polarities: %s" % (polarities,))
+        # with a schema the loop itself must be reached: guards outside the loop are only the Option<schema>/<checker> test
         n += 1
-        chk.ob(rule, fname.split("::")[-1], ok_all and gate_ok, "%s; failure of the check aborts the operation: %s" % (desc, det[:1]),
-               where=f.where(sites[0][1][1].get("l")), fn=f.name, sample={"fn": fname, "check_sites": len(sites)})
-    # the entity check is reached only under `schema` being Some, and is the full composite check
+        chk.ob(rule, fname.split("::")[-1], ok_all and not problems,
+               "%s; failure of the check aborts the operation: %s%s" % (desc, det[:1], ("; " + "; ".join(problems)) if problems else "; no iteration avoids the check when a schema is given"),
+               where=f.where(sites[0][1][1].get("l")), fn=f.name, key="%s:%s:%s" % (rule, fname.split("::")[-1], ";".join(sorted(set(re.sub(r" at L\d+", "", p) for p in problems)))),
+               sample={"fn": fname, "check_sites": len(sites), "skip_polarities": polarities})
     chk.floor(rule, "entry points", n, 3)
 
 
@@ -277,7 +316,7 @@ def run(chk, facts, tier):
         "Static decision of 'no conformance check is skipped or ignored' on the current MIR: (MUSTPASS) each composite check calls all its parts on every path to a "
         "success return (cut-reachability; per loop iteration for per-item checks; per branch of the action / non-action split), (HONOR) the failure edge of every elementary "
         "test (Result via ?, direct match, or boolean with its good polarity) cannot reach a success return and no check result is dropped, (MUSTPASS.entry) store entry points "
-        "that take a schema cross validate_entity before writing, (SIBLING) principal and resource are checked symmetrically. Declines exactness of each elementary test "
+        "that take a schema cross validate_entity in every loop iteration (only the no-schema / action-split guards may skip it), (RECORD) both record typecheckers look every value key up in the declared attributes (not-found accepted only through a discriminating open-attributes test), every declared key up in the value (not-found accepted only through the required flag) and honour the recursive check, (SIBLING) principal and resource are checked symmetrically. Declines exactness of each elementary test "
         "(type equality, enum membership, applicability sets).")
     chk.assumptions = ["elementary tests (typecheck_value_against_schematype, is_valid_enumerated_entity, deep_eq, is_applicable_*_type) are exact",
                        "MIR at mir-opt-level=0 reflects source control flow"]
@@ -285,3 +324,5 @@ def run(chk, facts, tier):
     euids_traversal(chk, facts)
     entry_points(chk, facts)
     sibling(chk, facts)
+    from rules import c11_record
+    c11_record.check(chk, facts)
